@@ -9,6 +9,20 @@ def norm_loop(dst='wp', nl='wsize', K='gk'):
                 inv='(0 <= %(n)s && %(n)s <= V_nl0 && ((%(n)s <= (%(k)s) && (%(k)s) < V_nl0) ==> %(d)s[%(k)s] == 0))' % {'n': nl, 'k': K, 'd': dst},
                 dec=nl)
 
+def split_alias(u, block, options):
+    """one unit per alias partition: `block` (the nondeterministic alias choice in the harness) is replaced by each fixed choice.
+    A single run over all partitions is the same proof but 5-20x slower (measured: mpq_set_num 340 s -> 3 x 20 s)."""
+    out = []
+    for tag, code in options:
+        v = dict(u)
+        v['name'] = u['name'] + ('_' + tag if tag else '')
+        assert block in u['harness'], u['name']
+        v['harness'] = u['harness'].replace(block, code).replace('h_' + u['name'] + ' (void)', 'h_' + v['name'] + ' (void)')
+        if tag:
+            v['selftest'] = []
+        out.append(v)
+    return out
+
 ALIAS3 = '''  mpz_ptr w = &W; mpz_srcptr u = &U, v = &V;
   if (nondet_bool ()) u = w;
   if (nondet_bool ()) v = w;
@@ -72,8 +86,11 @@ def mpz_aors(op):
                   (f, r'__gmpn_cmp \(up, vp, abs_usize\) < 0', '__gmpn_cmp (up, vp, abs_usize) > 0'),
                   (f, r'wsize = abs_usize \+ cy_limb', 'wsize = abs_usize')],
     )
-UNITS.append(mpz_aors('add'))
-UNITS.append(mpz_aors('sub'))
+A3 = [('', '  mpz_ptr w = &W; mpz_srcptr u = &U, v = &V;\n'), ('wu', '  mpz_ptr w = &W; mpz_srcptr u = w, v = &V;\n'),
+      ('wv', '  mpz_ptr w = &W; mpz_srcptr u = &U, v = w;\n'), ('uv', '  mpz_ptr w = &W; mpz_srcptr u = &U, v = u;\n'),
+      ('wuv', '  mpz_ptr w = &W; mpz_srcptr u = w, v = w;\n')]
+UNITS.extend(split_alias(mpz_aors('add'), ALIAS3, A3))
+UNITS.extend(split_alias(mpz_aors('sub'), ALIAS3, A3))
 
 # ------------------------------------------------------------------ mpz_neg / mpz_abs / mpz_set
 from c03_mpn import copy_loop
@@ -98,9 +115,10 @@ def mpz_copyish(op, sizexpr, muts):
   __CPROVER_assert (u != w ==> ((long) V_SIZ (u) == su && (gk < un ==> V_PTR (u)[gk] == Uk)), "[C05] source operand unchanged");
 }''' % dict(op=op, f=f, W=mpz_obj('W'), U=mpz_obj('U'), alias=ALIAS2, sz=sizexpr),
         selftest=[(f,) + m for m in muts])
-UNITS.append(mpz_copyish('neg', '-su', [(r'w->_mp_size = -usize', 'w->_mp_size = usize'), (r'w->_mp_alloc < size', 'w->_mp_alloc < size - 1')]))
-UNITS.append(mpz_copyish('abs', 'un', [(r'w->_mp_size = size', 'w->_mp_size = u->_mp_size')]))
-UNITS.append(mpz_copyish('set', 'su', [(r'w->_mp_alloc < size', 'w->_mp_alloc <= size - 2')]))
+A2 = [('', '  mpz_ptr w = &W; mpz_srcptr u = &U;\n'), ('wu', '  mpz_ptr w = &W; mpz_srcptr u = w;\n')]
+UNITS.extend(split_alias(mpz_copyish('neg', '-su', [(r'w->_mp_size = -usize', 'w->_mp_size = usize'), (r'w->_mp_alloc < size', 'w->_mp_alloc < size - 1')]), ALIAS2, A2))
+UNITS.extend(split_alias(mpz_copyish('abs', 'un', [(r'w->_mp_size = size', 'w->_mp_size = u->_mp_size')]), ALIAS2, A2))
+UNITS.extend(split_alias(mpz_copyish('set', 'su', [(r'w->_mp_alloc < size', 'w->_mp_alloc <= size - 2')]), ALIAS2, A2))
 
 UNITS.append(dict(
     name='mpz_swap', props=['C03', 'C04', 'C05', 'C15'], source='mpz/swap.c', contracts=['mpz.h'], enforce=['__gmpz_swap'],
@@ -164,5 +182,5 @@ for tag, cond in (('d_s', 'u != w && c != 0'), ('d_c', 'u != w && c == 0'), ('a_
     UNITS.append(v)
 
 for u in UNITS:
-    if u['name'] in ('mpz_add', 'mpz_set', 'mpz_neg', 'mpz_swap'):
+    if u['name'] in ('mpz_add', 'mpz_add_wu', 'mpz_add_wuv', 'mpz_set', 'mpz_set_wu', 'mpz_neg', 'mpz_swap'):
         u['quick_props'] = ['C04', 'C05', 'C15']
